@@ -191,7 +191,9 @@ theorem handle_entries {mh : Nat} {peers : List Node} {self frm clock : Nat} {a 
         · rename_i hmh
           have key : e ∈ (a.routes.foldl (storeRoute self frm a clock)
               { st with seen := (a.origin, a.seq) :: st.seen }).entries := by
-            split at h <;> exact h
+            split at h
+            · exact h
+            · split at h <;> exact h
           rcases mem_foldl_storeRoute _ _ key with h | ⟨hp, r, hr, he⟩
           · exact Or.inl h
           · exact Or.inr ⟨by simpa using hwd, ⟨hseen, hsb, hmh⟩, hp, r, hr, he⟩
@@ -209,7 +211,8 @@ theorem handle_out {mh : Nat} {peers : List Node} {self frm clock : Nat} {a : Ad
     {p : Node} {m : Adv} (h : (p, m) ∈ (handle mh peers self frm clock a st).2.1) :
     m = fwdAdv self a ∧ p ∈ peers ∧ p ≠ frm ∧ p ∉ a.seenBy ∧ p ≠ self ∧
     (a.origin, a.seq) ∉ st.seen ∧ self ∉ a.seenBy ∧
-    (a.wd = false → ¬ (mh > 0 ∧ hopsOf a > mh) ∧ ¬ (mh > 0 ∧ hopsOf a ≥ mh)) := by
+    (a.wd = false → ¬ (mh > 0 ∧ hopsOf a > mh) ∧ ¬ (mh > 0 ∧ hopsOf a ≥ mh) ∧
+      a.seenBy.length + 1 ≤ maxWireAgents ∧ a.path.length + 1 ≤ maxWireAgents) := by
   unfold handle at h
   split at h
   · cases h
@@ -230,10 +233,13 @@ theorem handle_out {mh : Nat} {peers : List Node} {self frm clock : Nat} {a : Ad
           split at h
           · cases h
           · rename_i hge
-            rcases List.mem_map.1 h with ⟨q, hq, heq⟩
-            cases heq
-            obtain ⟨h1, h2, h3, h4⟩ := mem_fwdTargets hq
-            exact ⟨rfl, h1, h2, h3, h4, hseen, hsb, fun _ => ⟨hmh, hge⟩⟩
+            split at h
+            · cases h
+            · rename_i hwire
+              rcases List.mem_map.1 h with ⟨q, hq, heq⟩
+              cases heq
+              obtain ⟨h1, h2, h3, h4⟩ := mem_fwdTargets hq
+              exact ⟨rfl, h1, h2, h3, h4, hseen, hsb, fun _ => ⟨hmh, hge, by omega, by omega⟩⟩
 
 theorem handle_seq (mh : Nat) (peers : List Node) (self frm clock : Nat) (a : Adv) (st : NodeSt) :
     (handle mh peers self frm clock a st).1.seq = st.seq ∧
@@ -249,7 +255,9 @@ theorem handle_seq (mh : Nat) (peers : List Node) (self frm clock : Nat) (a : Ad
       · split
         · exact ⟨rfl, rfl⟩
         · have := foldl_storeRoute_seq self frm clock a a.routes { st with seen := (a.origin, a.seq) :: st.seen }
-          split <;> exact ⟨this.1, this.2.2⟩
+          split
+          · exact ⟨this.1, this.2.2⟩
+          · split <;> exact ⟨this.1, this.2.2⟩
 
 theorem handle_seen {mh : Nat} {peers : List Node} {self frm clock : Nat} {a : Adv} {st : NodeSt}
     {k : Node × Nat} (h : k ∈ (handle mh peers self frm clock a st).1.seen) :
@@ -272,7 +280,9 @@ theorem handle_seen {mh : Nat} {peers : List Node} {self frm clock : Nat} {a : A
       · exact aux _ rfl h
       · split at h
         · exact aux _ rfl h
-        · split at h <;> exact aux _ hf h
+        · split at h
+          · exact aux _ hf h
+          · split at h <;> exact aux _ hf h
 
 /-- While the key is cached the advertisement is neither processed nor forwarded. -/
 theorem handle_cached {mh : Nat} {peers : List Node} {self frm clock : Nat} {a : Adv} {st : NodeSt}
@@ -294,7 +304,9 @@ theorem handle_marks (mh : Nat) (peers : List Node) (self frm clock : Nat) (a : 
       · exact List.mem_cons_self
       · split
         · exact List.mem_cons_self
-        · split <;> (rw [hf]; exact List.mem_cons_self)
+        · split
+          · rw [hf]; exact List.mem_cons_self
+          · split <;> (rw [hf]; exact List.mem_cons_self)
 
 theorem handle_seen_mono {mh : Nat} {peers : List Node} {self frm clock : Nat} {a : Adv} {st : NodeSt}
     {k : Node × Nat} (h : k ∈ st.seen) : k ∈ (handle mh peers self frm clock a st).1.seen := by
@@ -309,7 +321,9 @@ theorem handle_seen_mono {mh : Nat} {peers : List Node} {self frm clock : Nat} {
       · exact List.mem_cons_of_mem _ h
       · split
         · exact List.mem_cons_of_mem _ h
-        · split <;> (rw [hf]; exact List.mem_cons_of_mem _ h)
+        · split
+          · rw [hf]; exact List.mem_cons_of_mem _ h
+          · split <;> (rw [hf]; exact List.mem_cons_of_mem _ h)
 
 end MM.C11
 
@@ -653,7 +667,8 @@ theorem mem_originEntries {st : NodeSt} {peer o : Nat} {e : Entry} (h : e ∈ or
   · exact ⟨Or.inl h.1, h.2.1.2, h.2.2⟩
 
 /-- Shape of an advertisement built by SendFullTable(peer). -/
-structure IsReplayed (me peer : Node) (st : NodeSt) (n : Nat) (m : Adv) : Prop where
+structure IsReplayed (cap me peer : Node) (st : NodeSt) (n : Nat) (m : Adv) : Prop where
+  plen : m.path.length ≤ cap
   seenBy : m.seenBy = [me]
   wd : m.wd = false
   seq_gt : st.seq < m.seq
@@ -683,8 +698,8 @@ theorem replayAdvsAux_length (self : Node) (frs : List RFrame) (seq : Nat) :
   | nil => rfl
   | cons fr t ih => simp [replayAdvsAux, ih]
 
-theorem effFrames_ok {st : NodeSt} {peer : Node} {hint : List RFrame} {fr : RFrame}
-    (h : fr ∈ effFrames st peer hint) : frameOK st peer fr = true := by
+theorem effFrames_ok {cap : Nat} {st : NodeSt} {peer : Node} {hint : List RFrame} {fr : RFrame}
+    (h : fr ∈ effFrames cap st peer hint) : frameOK cap st peer fr = true := by
   unfold effFrames at h
   split at h
   · rename_i hok
@@ -692,13 +707,14 @@ theorem effFrames_ok {st : NodeSt} {peer : Node} {hint : List RFrame} {fr : RFra
     exact hok.1.1 fr h
   · exact (List.mem_filter.1 h).2
 
-theorem mem_replayAdvs {self peer : Node} {st : NodeSt} {hint : List RFrame} {m : Adv}
-    (h : m ∈ replayAdvs self peer st hint) : IsReplayed self peer st (replayAdvs self peer st hint).length m := by
+theorem mem_replayAdvs {cap self peer : Node} {st : NodeSt} {hint : List RFrame} {m : Adv}
+    (h : m ∈ replayAdvs cap self peer st hint) :
+    IsReplayed cap self peer st (replayAdvs cap self peer st hint).length m := by
   unfold replayAdvs at h ⊢
   obtain ⟨fr, hfr, ho, hr, hp, hs, hw, h1, h2⟩ := mem_replayAdvsAux _ _ h
   have hok := effFrames_ok hfr
   simp only [frameOK, Bool.and_eq_true, List.all_eq_true, List.contains_eq_mem, decide_eq_true_eq] at hok
-  obtain ⟨⟨⟨_, hsub⟩, _⟩, htail⟩ := hok
+  obtain ⟨⟨⟨⟨hcap, _⟩, hsub⟩, _⟩, htail⟩ := hok
   have hroutes : ∀ r, r ∈ m.routes → ∃ e, e ∈ st.entries ∧ e.origin = m.origin ∧ e.nextHop ≠ peer ∧ r = toRAd e := by
     intro r hrm
     rw [hr] at hrm
@@ -707,7 +723,7 @@ theorem mem_replayAdvs {self peer : Node} {st : NodeSt} {hint : List RFrame} {m 
     obtain ⟨e, he, rfl⟩ := this
     obtain ⟨g1, g2, g3⟩ := mem_originEntries he
     exact ⟨e, g1, by rw [ho]; exact g2, g3, rfl⟩
-  refine ⟨hs, hw, h1, by rw [replayAdvsAux_length]; exact h2, hroutes, fr.ptail, hp, ?_⟩
+  refine ⟨by rw [hp]; simpa using hcap, hs, hw, h1, by rw [replayAdvsAux_length]; exact h2, hroutes, fr.ptail, hp, ?_⟩
   by_cases hpt : fr.ptail = []
   · refine Or.inl ⟨hpt, ?_⟩
     intro hne
@@ -743,6 +759,7 @@ inductive FlightFrom (t : Net) (op : Op) (f : Flight) : Prop where
       (hns : f.dst ∉ m.seenBy) (hself : f.dst ≠ f.src)
       (hseen : (m.origin, m.seq) ∉ (t.nodes f.src).seen) (hsb : f.src ∉ m.seenBy)
       (hlim : m.wd = false → ¬ (t.maxHops > 0 ∧ hopsOf m ≥ t.maxHops))
+      (hwire : m.wd = false → m.seenBy.length + 1 ≤ maxWireAgents ∧ m.path.length + 1 ≤ maxWireAgents)
       (hadv : f.adv = fwdAdv f.src m)
   /-- `WithdrawLocalRoutes` at `f.src` -/
   | wdr (hop : op = .withdraw f.src) (ha : f.src < t.n)
@@ -750,7 +767,8 @@ inductive FlightFrom (t : Net) (op : Op) (f : Flight) : Prop where
       (hadv : f.adv = withdrawAdv f.src (t.nodes f.src))
   /-- `SendFullTable(f.dst)` at `f.src` -/
   | rep (ord : List RFrame) (hop : op = .replay f.src f.dst ord) (ha : f.src < t.n) (hb : f.dst < t.n)
-      (hl : linked t f.src f.dst = true) (hadv : f.adv ∈ replayAdvs f.src f.dst (t.nodes f.src) ord)
+      (hl : linked t f.src f.dst = true)
+      (hadv : f.adv ∈ replayAdvs (hopCap t.maxHops) f.src f.dst (t.nodes f.src) ord)
 
 theorem flight_process {t : Net} {op : Op} {fl : List Flight} {a b : Node} {f0 f : Flight}
     (hsub : ∀ g, g ∈ fl → g ∈ t.flight)
@@ -765,7 +783,8 @@ theorem flight_process {t : Net} {op : Op} {fl : List Flight} {a b : Node} {f0 f
     have hf0' : (⟨a, b, f0.adv⟩ : Flight) ∈ t.flight := by
       have : f0 = ⟨a, b, f0.adv⟩ := by cases f0; simp_all
       rw [← this]; exact hf0
-    exact .fwd a f0.adv hf0' hl ha hb hp hne hns hself hseen hsb (fun h0 => (hlim h0).2) hm
+    exact .fwd a f0.adv hf0' hl ha hb hp hne hns hself hseen hsb (fun h0 => (hlim h0).2.1)
+      (fun h0 => (hlim h0).2.2) hm
 
 theorem flight_stepCore {t : Net} {op : Op} {f : Flight} (h : f ∈ (stepCore t op).flight) :
     FlightFrom t op f := by
@@ -1041,7 +1060,7 @@ def selfOnly (a : Node) (m : Adv) : Bool := m.origin == a && m.path == [a]
 /-- `replay` ops are benign when SendFullTable only sends the replayer's own (local) routes — the
     initial table exchange on a fresh link — i.e. no route of ANOTHER origin is re-advertised. -/
 def benignOp (s : Net) : Op → Bool
-  | .replay a b ord => (replayAdvs a b (s.nodes a) ord).all (selfOnly a)
+  | .replay a b ord => (replayAdvs (hopCap s.maxHops) a b (s.nodes a) ord).all (selfOnly a)
   | _ => true
 
 def benignRun (s : Net) : List Op → Bool
@@ -1067,7 +1086,7 @@ theorem run_induction_benign {P : Net → Prop} (s : Net) (ops : List Op) (h0 : 
     exact ih (step s op) (hstep s op h0 hb.1) hb.2
 
 theorem benign_replay {s : Net} {a b : Node} {ord : List RFrame} {m : Adv}
-    (hb : benignOp s (.replay a b ord) = true) (hm : m ∈ replayAdvs a b (s.nodes a) ord) :
+    (hb : benignOp s (.replay a b ord) = true) (hm : m ∈ replayAdvs (hopCap s.maxHops) a b (s.nodes a) ord) :
     m.origin = a ∧ m.path = [a] := by
   simp only [benignOp, List.all_eq_true] at hb
   have := hb m hm
@@ -1092,8 +1111,10 @@ theorem handle_out_length (mh : Nat) (peers : List Node) (self frm clock : Nat) 
         · simp
         · split
           · simp
-          · simp only [List.length_map]
-            exact List.length_filter_le _ _
+          · split
+            · simp
+            · simp only [List.length_map]
+              exact List.length_filter_le _ _
 
 end MM.C11
 
